@@ -167,6 +167,8 @@ impl Report {
         for v in &fresh {
             by_key.entry(v.key.clone()).or_default().push(v);
         }
+        // replay artefacts of earlier runs of this property are stale
+        let _ = std::fs::remove_dir_all(util::verif_root().join("replays").join(&self.id));
         let mut replay_paths = vec![];
         for (key, vs) in &by_key {
             for v in vs.iter().take(3) {
